@@ -138,6 +138,8 @@ PROPS["C06"] = dict(
         dict(name="clean", harness="comms", weight=1, runs=dict(quick=600, thorough=10000), opts=dict(lossy=False)),
         dict(name="lossy", harness="comms", weight=3, runs=dict(quick=2500, thorough=60000), opts=dict(lossy=True)),
         dict(name="partition", harness="comms", weight=2, runs=dict(quick=600, thorough=15000), opts=dict(lossy=False, partition=True)),
+        dict(name="burst", harness="comms", weight=1, runs=dict(quick=300, thorough=8000), opts=dict(lossy=False, burst=True)),
+        dict(name="burst-lossy", harness="comms", weight=1, runs=dict(quick=300, thorough=8000), opts=dict(lossy=True, burst=True)),
         dict(name="malformed", harness="comms", weight=1, runs=dict(quick=1500, thorough=30000), opts=dict(mode="malformed")),
         dict(name="enum-frame", harness="comms", weight=3, runs=dict(quick=64, thorough=3000), opts=dict(lossy=False, max_ops=12),
              enumerate=dict(kinds=["frame"], quick=50, thorough=None)),
@@ -162,6 +164,8 @@ PROPS["C07"] = dict(
     groups=[
         dict(name="clean", harness="dataplane", weight=1, runs=dict(quick=400, thorough=8000), opts=dict(lossy=False)),
         dict(name="lossy", harness="dataplane", weight=3, runs=dict(quick=1200, thorough=40000), opts=dict(lossy=True)),
+        dict(name="burst", harness="dataplane", weight=1, runs=dict(quick=100, thorough=4000), opts=dict(lossy=False, burst=True)),
+        dict(name="burst-lossy", harness="dataplane", weight=1, runs=dict(quick=100, thorough=4000), opts=dict(lossy=True, burst=True)),
         dict(name="enum-frame", harness="dataplane", weight=3, runs=dict(quick=48, thorough=2000), opts=dict(lossy=False),
              enumerate=dict(kinds=["frame"], quick=40, thorough=None)),
     ],
